@@ -41,6 +41,10 @@ def leaf(x: int):
     _step("leaf", x)
     return None if PLAN.get("ret_none") else x * 10
 
+def wleaf(b: int, x: int, w: int = 1):
+    _step("wleaf", x)
+    return None if PLAN.get("ret_none") else (b + x) * w
+
 def root(x: int) -> int:
     n = _step("root", x)
     shape = PLAN["shape"]
@@ -54,6 +58,10 @@ def root(x: int) -> int:
         total += r or 0
     elif shape == 2:
         total += sum((v or 0) for v in APPX["leaf"].parallelize([(1,), (2,)]).results)
+    elif shape == 3:
+        # a group built from shared arguments plus per-call dictionaries that do not all name the same parameters
+        g = APPX["wleaf"].parallelize([{"x": 1, "w": 3}, {"x": 2}, {"x": 3}], common_args={"b": 5})
+        total += sum((v or 0) for v in g.results)
     if PLAN.get("ret_none") and shape == 0:
         return None
     return total
@@ -86,7 +94,7 @@ def execute(mode, shape, max_retries, root_script, leaf_script, direct, ret_none
     reset_uuid()
     COUNT.clear()
     PLAN.clear()
-    PLAN.update({"root": root_script, "leaf": leaf_script, "shape": shape, "ret_none": ret_none, "double_read": double_read})
+    PLAN.update({"root": root_script, "leaf": leaf_script, "wleaf": leaf_script, "shape": shape, "ret_none": ret_none, "double_read": double_read})
     kind = "mem" if mode in ("sync", "mem") else "sqlite"
     app = mk_app(kind, app_id="c19" + mode, dev_mode_force_sync_tasks=(mode == "sync"), cached_status_time=0.0,
                  invocation_wait_results_sleep_time_sec=0.0)
@@ -97,8 +105,9 @@ def execute(mode, shape, max_retries, root_script, leaf_script, direct, ret_none
     else:
         root_t = app.task(max_retries=max_retries)(root)
         droot = None
-    warm_task(leaf_t); warm_task(root_t)
-    PLAN["app"] = {"leaf": leaf_t, "root": root_t}
+    wleaf_t = app.task(max_retries=1)(wleaf)
+    warm_task(leaf_t); warm_task(root_t); warm_task(wleaf_t)
+    PLAN["app"] = {"leaf": leaf_t, "root": root_t, "wleaf": wleaf_t}
     if mode != "sync":
         app.runner = InlineRunner(app)
         with NoTracing():
@@ -163,7 +172,7 @@ def program(shape, max_retries, r1, r2, r3, l1, l2, direct, ret_none=False, doub
     return True
 
 def go(shape, max_retries, r1, r2, r3, l1, l2, direct, flags=0):
-    shape = pick(shape, 0, 2); max_retries = pick(max_retries, 0, 3)
+    shape = pick(shape, 0, 3); max_retries = pick(max_retries, 0, 3)
     r1 = pick(r1, 0, 2); r2 = pick(r2, 0, 2); r3 = pick(r3, 0, 2); l1 = pick(l1, 0, 2); l2 = pick(l2, 0, 2); direct = pick(direct, 0, 1)
     flags = pick(flags, 0, 3)
     with NoTracing():
@@ -213,7 +222,7 @@ def run(ctx: Ctx) -> None:
     thorough = ctx.tier == "thorough"
     src = SRC
     conds = []
-    for s in range(3):
+    for s in range(4):
         for m in range(4):
             f = F.replace("__S__", str(s)).replace("__M__", str(m)).replace("__LMAX__", "0" if s == 0 else "2").replace("__FMAX__", "3" if s <= 1 else "1").replace("__R3PRE__", "0 <= r3 <= 2" if thorough else "r3 == 0")
             src += f
@@ -226,7 +235,7 @@ def run(ctx: Ctx) -> None:
     ctx.functions_encoded += ["Task._call (mode switch), Task.parallelize/distribute_calls", "ConcurrentInvocation.result / ConcurrentInvocationGroup.results",
                               "DistributedInvocation.run/result, DistributedInvocationGroup.results", "BaseOrchestrator.set_invocation_retry/get_invocations_to_run/route_call",
                               "Pynenc.direct_task wrapper"]
-    ctx.bounds = {"programs": "root script of 2 attempts quick / 3 thorough over {return, raise retriable, raise non-retriable}; max_retries 0..3; child shape none / single / parallelized group of 2 "
+    ctx.bounds = {"programs": "root script of 2 attempts quick / 3 thorough over {return, raise retriable, raise non-retriable}; max_retries 0..3; child shape none / single / parallelized group of 2 / group of 3 from common_args + per-call dictionaries with different key sets "
                               "with a 2-attempt child script (child max_retries 1); plain or direct-task root; bodies returning values or None; results read once or twice",
                   "modes": "sync (dev_mode_force_sync_tasks), distributed on the in-memory stack, distributed on the SQLite stack"}
     ctx.stubs += ["InlineRunner: single-thread stand-in for the runner; its worker step = the persistent-process worker loop body (get_invocations_to_run(1) then invocation.run); "
